@@ -31,9 +31,12 @@ import (
 
 // CoordHash / CoordRaw are the coordinator's configuration identity in scenarios.
 const (
-	CoordHash = "HASH-COORD"
+	// (hashes have the form the real ones have, fmt.Sprint of a uint64; NearHash is another configuration's hash
+	// that happens to differ from the coordinator's in the last digit only)
+	CoordHash = "13043817825332782231"
 	CoordRaw  = "raw: coordinator-config\n"
-	OldHash   = "HASH-OLD"
+	OldHash   = "4879105664937028407"
+	NearHash  = "13043817825332782230"
 )
 
 // Options mirrors coordinator.Option (MaxIdle: 0 or one hour).
@@ -635,6 +638,9 @@ func ExecSeq(scs []*Scenario) []*Transcript {
 				h := CoordHash
 				if !sp.HashEqual {
 					h = OldHash
+					if (ri+si)%2 == 1 {
+						h = NearHash
+					}
 				}
 				fs := &fakeShard{spec: sp, hash: h, nearStart: nearStart}
 				if wire {
